@@ -15,3 +15,4 @@ import RelicVerif.Props.C12
 import RelicVerif.Props.C04
 import RelicVerif.Props.C06
 import RelicVerif.Props.C13
+import RelicVerif.Props.C17
